@@ -67,7 +67,7 @@ func parkedOnMutex(state string) bool {
 
 // watch waits until the goroutine has returned (outcome) or is parked on a mutex (blocked).
 func watch(gid string, done chan outcome) (o outcome, blocked bool) {
-	deadline := time.Now().Add(20 * time.Second)
+	deadline := time.Now().Add(hangAfter)
 	parked := 0
 	for {
 		select {
